@@ -117,6 +117,14 @@ impl Packer {
         }
         Ok(())
     }
+    /// the EOF is a 24 bit field, refuse anything that does not fit rather than wrapping it
+    fn check_len(len: usize) -> STDRESULT {
+        if len > 0xffffff {
+            log::error!("length {} exceeds the ProDOS maximum file size",len);
+            return Err(Box::new(Error::Range));
+        }
+        Ok(())
+    }
 }
 
 impl Packing for Packer {
@@ -161,6 +169,7 @@ impl Packing for Packer {
     
     fn pack_raw(&self,fimg: &mut FileImage,dat: &[u8]) -> STDRESULT {
         Self::verify(fimg)?;
+        Self::check_len(dat.len())?;
         fimg.desequence(dat);
         fimg.fs_type = vec![FileType::Text as u8];
         fimg.access = vec![STD_ACCESS | DIDCHANGE];
@@ -183,6 +192,7 @@ impl Packing for Packer {
             Some(v) => [dat,v].concat(),
             None => dat.to_vec()
         };
+        Self::check_len(padded.len())?;
         if let Some(addr) = load_addr {
             fimg.desequence(&padded);
             fimg.fs_type = vec![FileType::Binary as u8];
@@ -201,6 +211,7 @@ impl Packing for Packer {
     fn pack_txt(&self,fimg: &mut FileImage,txt: &str) -> STDRESULT {
         Self::verify(fimg)?;
         let file = SequentialText::from_str(txt)?;
+        Self::check_len(file.to_bytes().len())?;
         fimg.desequence(&file.to_bytes());
         fimg.access = vec![STD_ACCESS | DIDCHANGE];
         fimg.fs_type = vec![FileType::Text as u8];
@@ -220,6 +231,7 @@ impl Packing for Packer {
             Some(v) => [tok,v].concat(),
             None => tok.to_vec()
         };
+        Self::check_len(padded.len())?;
         fimg.desequence(&padded);
         fimg.access = vec![STD_ACCESS | DIDCHANGE];
         match lang {
